@@ -710,6 +710,10 @@ func genValid(r *prng.R) prog {
 	n := 1 + r.Intn(8)
 	for i := 0; i < n; i++ {
 		last := i == n-1
+		if i == 0 && n > 1 && r.Chance(1, 3) { // the usual place of the recovery middleware
+			p.hs = append(p.hs, handler{kind: "REC"})
+			continue
+		}
 		if !last && r.Chance(3, 10) {
 			p.hs = append(p.hs, genBuiltin(r, p.path))
 			continue
@@ -770,6 +774,10 @@ func genWeird(r *prng.R) prog {
 	p := prog{method: prng.Pick(r, methods), path: genPath(r)}
 	n := 1 + r.Intn(8)
 	for i := 0; i < n; i++ {
+		if i == 0 && n > 1 && r.Chance(1, 3) {
+			p.hs = append(p.hs, handler{kind: "REC"})
+			continue
+		}
 		if r.Chance(1, 4) {
 			p.hs = append(p.hs, genBuiltin(r, p.path))
 			continue
